@@ -48,10 +48,11 @@ theorem createUpdate_idem (s : State) (b t nj ng usr : Nat) :
       ((step s (.createUpdate b t nj ng usr)).1, (step s (.createUpdate b t nj ng usr)).2) :=
   Submission.createUpdate_idem s b t nj ng usr
 
-/-- The token is looked up before every other check (user, deleted, cancelled): whenever an update of the batch carries
-this token the request answers its id and changes nothing — even if the batch has meanwhile been cancelled or deleted. -/
+/-- The token is looked up before the cancelled check: whenever an update of the batch carries this token and the caller
+owns the (non-deleted) batch, the request answers the stored update id and changes nothing — even if the batch has
+meanwhile been cancelled.  (Since repo commit 4c50f4344 the lookup is restricted to the owner; anybody else gets 404.) -/
 theorem createUpdate_known_token (s : State) (b t nj ng usr : Nat) (u : Update) (hn : ¬ (nj = 0 ∧ ng = 0))
-    (h : s.updates.find? (fun u => u.batch = b ∧ u.token = t) = some u) :
+    (h : s.updates.find? (fun u => u.batch = b ∧ u.token = t ∧ ownedBy s b usr) = some u) :
     step s (.createUpdate b t nj ng usr) = (s, .ok u.id) := by
   show createUpdate s b t nj ng usr = _
   simp only [createUpdate, hn, if_false, h]
